@@ -191,3 +191,46 @@ def _vm_binop(repo):
     if not re.search(r"stack\.push\(b\);\s*stack\.push\(Value::from\(result\)\);", cap):
         raise KeyError("CompareAndPreserve pushes")
     return {"binop": rows, "cap": crow}, _rows("vmBinopTable", rows) + "\n" + _rows("vmCompareAndPreserveTable", crow)
+
+
+@item("C04_TRAVERSAL")
+def _traversal(repo):
+    """which `Expr` variants `Expr::as_const` handles (everything else: `_ => None`), and the
+    special cases of the code generator that evaluate at compile time"""
+    src = read(repo, AST)
+    ebody = re.sub(r"//.*", "", fn_body(src, r"pub enum Expr<'a>\s*\{"))
+    variants = re.findall(r"^\s*([A-Z]\w*)\(", ebody, re.M)
+    if not variants:
+        raise KeyError("enum Expr variants")
+    body = fn_body(src, r"pub fn as_const\(&self\) -> Option<Value>\s*\{")
+    inner = fn_body(body, r"match self\s*\{")
+    arms = []
+    for n in re.findall(r"Expr::(\w+)\(\w+\)\s*=>", inner):
+        if n not in arms:
+            arms.append(n)
+    if not arms:
+        raise KeyError("as_const arms")
+    if not re.search(r"_\s*=>\s*None\s*,?\s*$", inner.strip()):
+        raise KeyError("as_const: the catch-all arm `_ => None` is gone")
+    # code generator
+    cg = read(repo, CG)
+    ce = fn_body(cg, r"pub fn compile_expr\(&mut self, expr: &ast::Expr<'source>\)\s*\{")
+    specials = []
+    if re.search(r"^\s*(?://[^\n]*\n\s*)*if let Some\(v\) = expr\.as_const\(\) \{\s*self\.set_line_from_span\(expr\.span\(\)\);\s*"
+                 r"self\.add\(Instruction::LoadConst\(v\.clone\(\)\)\);\s*return;\s*\}", ce):
+        specials.append("fold-first")
+    if re.search(r"if let ast::Expr::Const\(ref c\) = c\.expr \{\s*if let Ok\(negated\) = neg\(&c\.value\) \{\s*"
+                 r"self\.add\(Instruction::LoadConst\(negated\)\);\s*return;\s*\}\s*\}", ce):
+        specials.append("neg-const-shortcut")
+    ca = fn_body(cg, r"fn compile_call_args\(")
+    if (re.search(r"if !matches!\(expr, ast::Expr::Const\(_\)\) \{\s*static_kwargs = false;\s*\}", ca)
+            and re.search(r"collected_kwargs\.insert\(Value::from\(\*key\), c\.value\.clone\(\)\);", ca)
+            and re.search(r"self\.add\(Instruction::LoadConst\(Kwargs::wrap\(collected_kwargs\)\)\);", ca)):
+        specials.append("static-kwargs")
+    # every other compile-time evaluation in the code generator would go through one of these
+    others = len(re.findall(r"as_const\(\)", cg))
+    lean = ("def exprVariants : List String := [" + ", ".join(map(lean_str, variants)) + "]\n"
+            "def asConstArms : List String := [" + ", ".join(map(lean_str, arms)) + "]\n"
+            "def codegenSpecials : List String := [" + ", ".join(map(lean_str, specials)) + "]\n"
+            f"def codegenAsConstUses : Nat := {others}")
+    return {"variants": variants, "arms": arms, "specials": specials, "as_const_uses": others}, lean
